@@ -213,7 +213,9 @@ def rule_K_MUTATOR(ctx):
                 continue
             binds = hir.pat_bindings(pat)
             ex = hir.find_calls(arm["body"], "extend")
-            if len(ex) == 1 and field_path(ex[0]["args"][0]) == (pc_p,) and hir.is_unit_ok(hir.last_expr(arm["body"])):
+            # unconditionally: the arm is the extend and Ok(()) -- no branch, loop or early return around it (cf. seed c17-o)
+            ctl = [n_ for n_ in hir.walk(arm["body"]) if n_.get("k") in ("If", "Match", "Ret", "Loop", "Break", "Continue")]
+            if len(ex) == 1 and not ctl and field_path(ex[0]["args"][0]) == (pc_p,) and hir.is_unit_ok(hir.last_expr(arm["body"])):
                 tgt = field_path(ex[0]["recv"])
                 pos = binds.index(tgt[0]) if tgt and tgt[0] in binds else None
                 if pos is not None and st[v][pos] == "vec":
